@@ -1,5 +1,6 @@
 import PqModel.PageLoad
 import PqModel.PageStep
+import PqModel.PageReaders
 
 /-! # C13 — Corruption inside a checksummed page is reported, never returned as data
 
@@ -15,7 +16,7 @@ verifies (F4: the dictionary loader did not) — is gone; its negation is kept a
 of the old code (`PageLoad.beforeFix`) under `_before_fix` names, as regression facts.
 Bursts wider than 32 bits are detected with probability 1 - 2^-32 only: not claimed. -/
 namespace PqModel.Props.C13
-open PqModel.Crc PqModel.PageLoad PqModel.PageStep
+open PqModel.Crc PqModel.PageLoad PqModel.PageStep PqModel.PageReaders
 
 /-! ## CRC-32 on bytes -/
 
@@ -286,6 +287,94 @@ example :
     Seek.outs (Seek.stepFixed (seekChunk c [4, 4, 4])) (Seek.init true)
       [.readPage, .readPage, .seek 5, .readPage, .readPage, .seek 9, .readPage] =
       [.page 0 0 4, .corrupt, .ok, .corrupt, .page 2 9 3, .ok, .page 2 9 3] := by
+  decide +kernel
+
+/-! ## Whole-column and multi-row-group readers (`columnPages`, `multiPages`)
+
+`concatReadPage guard` mirrors both; `Props/FactsCheckC13.lean` shows that the guard in the source
+(`err == nil || err != io.EOF`) is a `GoodGuard`. -/
+
+/-- **concat_refines**: for a guard that returns pages and failures and moves on at io.EOF, reading
+    until EOF/failure through the concatenating reader is the reference read: the chunks' pages in
+    order up to the first failure, which is reported — for any number of chunks and any scripts. -/
+theorem concat_refines (guard : Sit → Bool) (hg : GoodGuard guard) (cs : List Script) :
+    drain guard (fuelFor cs) cs = specRead cs :=
+  drain_refines guard hg cs (fuelFor cs) (Nat.le_refl _)
+
+/-- **whole_column_detects_data_page**: row groups `pre` are intact; in the next one data page number
+    `before.length` is corrupted (burst ≤ 32 bits, header CRC ≠ 0), the pages before it and the
+    dictionary page intact. Then reading the whole column delivers exactly the pristine pages in front
+    of the corrupted one and then reports the corruption: no page of that row group after it, no page
+    of the row groups `post`, no clean EOF. -/
+theorem whole_column_detects_data_page (impl : Impl) (guard : Sit → Bool) (hg : GoodGuard guard)
+    (pre post : List Chunk) (c : Chunk) (before after : List Stored) (bad : Stored)
+    (hpre : ∀ x ∈ pre, IntactChunk x) (hp : c.pages = before ++ bad :: after)
+    (hbefore : ∀ s ∈ before, Intact s) (hdict : ∀ d, c.dict = some d → Intact d) (hc : Corrupted bad) :
+    let cs := (pre ++ c :: post).map (chunkScript impl)
+    drain guard (fuelFor cs) cs =
+      ((pre.map fun x => x.pages.map toPage).flatten ++ before.map toPage, some .corrupted) := by
+  intro cs
+  have hcs : cs = (pre.map fun x => x.pages.map toPage).map cleanChunk ++
+      (cleanChunk (before.map toPage) ++ .fail .corrupted :: []) :: post.map (chunkScript impl) := by
+    show (pre ++ c :: post).map (chunkScript impl) = _
+    rw [List.map_append, List.map_cons, List.map_map]
+    congr 1
+    · apply List.map_congr_left
+      intro x hx
+      exact chunkScript_intact impl x (hpre x hx)
+    · congr 1
+      unfold chunkScript
+      cases hd : c.dict with
+      | none => simp only []; rw [hp]; exact pagesScript_corrupted impl bad after hc before hbefore
+      | some d =>
+        simp only [loadStored_intact impl d (hdict d hd)]
+        rw [hp]; exact pagesScript_corrupted impl bad after hc before hbefore
+  rw [concat_refines guard hg cs, hcs]
+  exact specRead_reports _ _ _ _ _
+
+/-- **whole_column_detects_dictionary**: … and when the dictionary page of a row group is corrupted,
+    the read delivers the pages of the row groups before it and reports the corruption -/
+theorem whole_column_detects_dictionary (impl : Impl) (guard : Sit → Bool) (hg : GoodGuard guard)
+    (pre post : List Chunk) (c : Chunk) (d : Stored)
+    (hpre : ∀ x ∈ pre, IntactChunk x) (hd : c.dict = some d) (hc : Corrupted d) :
+    let cs := (pre ++ c :: post).map (chunkScript impl)
+    drain guard (fuelFor cs) cs = ((pre.map fun x => x.pages.map toPage).flatten, some .corrupted) := by
+  intro cs
+  have hcs : cs = (pre.map fun x => x.pages.map toPage).map cleanChunk ++
+      (cleanChunk [] ++ .fail .corrupted :: []) :: post.map (chunkScript impl) := by
+    show (pre ++ c :: post).map (chunkScript impl) = _
+    rw [List.map_append, List.map_cons, List.map_map]
+    congr 1
+    · apply List.map_congr_left
+      intro x hx
+      exact chunkScript_intact impl x (hpre x hx)
+    · congr 1
+      unfold chunkScript
+      simp [hd, loadStored_corrupted impl .sequential rfl d hc, cleanChunk]
+  rw [concat_refines guard hg cs, hcs, specRead_reports]
+  simp
+
+/-- hypotheses satisfiable, and the result is not "always an error": two row groups of two pages,
+    page 1 of the second has one bit flipped -/
+example :
+    let pg : Bytes := [1, 2, 3, 4]
+    let ok : Stored := ⟨writeHeader .dataV2 pg, pg⟩
+    let g0 : Chunk := { dict := none, pages := [ok, ok] }
+    let g1 : Chunk := { dict := none, pages := [ok, ⟨writeHeader .dataV2 pg, [1, 2, 3, 5]⟩] }
+    let good : Sit → Bool := fun s => s.errNil || !s.errEOF
+    drain good 10 ([g0, g1].map (chunkScript current)) = ([toPage ok, toPage ok, toPage ok], some .corrupted) ∧
+    drain good 10 ([g0, g0].map (chunkScript current)) = ([toPage ok, toPage ok, toPage ok, toPage ok], none) := by
+  decide +kernel
+
+/-- the seeded slip (seeded/C13-3b) `if p != nil { return p, err }` on the mirror: the failure comes
+    with a nil page, the guard is false, the reader moves to the next row group and ends in a clean
+    EOF — the rest of the row group is silently missing -/
+theorem page_nonnil_guard_swallows :
+    let pg : Bytes := [1, 2, 3, 4]
+    let ok : Stored := ⟨writeHeader .dataV2 pg, pg⟩
+    let g1 : Chunk := { dict := none, pages := [ok, ⟨writeHeader .dataV2 pg, [1, 2, 3, 5]⟩, ok] }
+    let g2 : Chunk := { dict := none, pages := [ok] }
+    drain (fun s => !s.pageNil) 10 ([g1, g2].map (chunkScript current)) = ([toPage ok, toPage ok], none) := by
   decide +kernel
 
 /-! ## F4 (repaired by 5000be7) — regression facts about the code before the fix
